@@ -72,11 +72,15 @@ func c19History(k *fw.K) {
 			case 5: // distinct ADJACENT float64 values of ordinary magnitude (0.1+0.2 against 0.3): different labels
 				t[i] = []float64{0.3, 1, 2, 0.1, 7, 1e6, -3, 9007199254740992}[r.Intn(8)]
 				p[i] = t[i]
-				switch r.Intn(3) {
+				switch r.Intn(4) {
 				case 0:
 					p[i] = math.Nextafter(t[i], math.Inf(1))
 				case 1:
 					p[i] = math.Nextafter(t[i], math.Inf(-1))
+				case 2: // an infinity against the OPPOSITE infinity or a finite label: different labels (same-sign infinities are left to class 4)
+					// predictions only ever +Inf, targets only ever -Inf, so that no same-sign pair can arise later in the history
+					pair := [][2]float64{{math.Inf(1), math.Inf(-1)}, {math.Inf(1), 1e308}, {5, math.Inf(-1)}}[r.Intn(3)]
+					p[i], t[i] = pair[0], pair[1]
 				}
 			case 1:
 				t[i] = r.NormFloat64() * 10
@@ -97,7 +101,7 @@ func c19History(k *fw.K) {
 				}
 			}
 			if class == 3 || mode == 1 || mode == 2 {
-				if mode == 1 && !math.IsNaN(t[i]) {
+				if mode == 1 && !math.IsNaN(t[i]) && !math.IsInf(t[i], 0) {
 					p[i] = t[i]
 				}
 				if mode == 2 && p[i] == t[i] {
@@ -305,10 +309,17 @@ func c19History(k *fw.K) {
 		// different prediction tensor, or the same prediction object against a different target tensor
 		if r.Intn(4) == 0 && !long {
 			other := make([]float64, len(b.P))
+			reuseTarget := r.Intn(2) == 0
 			for i := range other {
 				src := b.P
 				if r.Intn(2) == 0 {
 					src = b.T
+				}
+				if class == 5 { // values of the role being replaced only (keeps the signs of infinities per role)
+					src = b.T
+					if reuseTarget {
+						src = b.P
+					}
 				}
 				other[i] = src[r.Intn(len(src))]
 				if class == 1 && r.Intn(2) == 0 {
@@ -316,7 +327,6 @@ func c19History(k *fw.K) {
 				}
 			}
 			nb2 := batch{P: other, T: b.T}
-			reuseTarget := r.Intn(2) == 0
 			if !reuseTarget {
 				nb2 = batch{P: b.P, T: other}
 			}
